@@ -59,6 +59,8 @@ fn schedules(rng: &mut Rng, len: usize) -> Vec<(Policy, Ctor)> {
             crate::c01::random_policy(rng, len),
             Ctor::Chunk(*rng.pick(&[2usize, 3, 7, 8, 9, 16, 17, 64])),
         ),
+        // every other public way of building the parser, incl. on a reader that was advanced before
+        (crate::c01::random_policy(rng, len), drive::random_ctor(rng)),
     ]
 }
 
